@@ -17,7 +17,7 @@ checks = {
    text="all sequences of Storage operations over 3 keys / small value, expiry, version-kind and pattern alphabets to a fixpoint of the canonical model state; in-memory and Redis (miniredis) backends driven in lock-step and compared with a reference model after every operation",
    note="trusted: miniredis behaves like Redis for SETNX/WATCH/MULTI/EXEC/MSET/PX/SCAN; version strings abstracted to tokens (only compared for equality by both backends); one known finding (leading '/' stripped by the Redis backend, several signatures) is reported as KNOWN-FINDING and does not cut the exploration (the aliased key is no longer observed on that backend for the rest of the history); patterns include the gobwas/glob forms {a,b} and [!a] that Redis MATCH does not share; a second small search covers the empty key"),
  "C06": dict(engine="Q+S", cat="model_checking", tech=Q + "; every transition runs inside one execution of the controlled scheduler so that time is virtual",
-   text="all histories over 2 keys of writes with expiry none/short/long/sub-millisecond/9999-12-31/1000-01-01, clock steps, and every operation kind (incl. WaitForVersionChange) as first and later touch of an expired key, per backend, to a fixpoint; model deletes a record at its expiration instant; plus Engine-S families: 2-3 concurrent waiters on one expiring record with cancellers, and a writer renewing the record at the instant it expires under 1-2 sleeping waiters (every order within P<=2)",
+   text="all histories over 2 keys of writes with expiry none/short/long/sub-millisecond/9999-12-31/1000-01-01, clock steps, and every operation kind (incl. WaitForVersionChange) as first and later touch of an expired key, per backend, to a fixpoint; model deletes a record at its expiration instant; plus Engine-S families: 2-3 concurrent waiters on one expiring record with cancellers, a writer renewing the record at the instant it expires under 1-2 sleeping waiters, a waiter arriving within nanoseconds of the expiration instant, readers racing a writer on an expired untouched record (every order within P<=2)",
    note="virtual clock drives time.Now of the rewritten backends and miniredis' TTL clock; at most 3 clock steps per history; remaining lifetimes are bucketed (short/long) in the state key, sound because a clock step either expires every short record or no long one"),
  "C08": dict(engine="Q", cat="model_checking", tech=Q,
    text="all call sequences of GetOrCreate (scripted create outcome)/Remove/Clear for Cache, ECache (non-injective key mapping) and ExpirableCache, capacities 1..4(5), to a fixpoint; oracle: reference LRU list plus exact ledger of create/delete callbacks per call",
@@ -38,7 +38,7 @@ checks = {
    text="every byte string of length <=3 over the full alphabet and <=8(10) over {00,01,7F,80,FF}, the family of long varint prefixes reaching 2^31/2^63/2^64-1, mutated valid encodings; oracle: no panic, n in range, result aliases the input (pointer range) or is a copy, n=0 on error",
    note="inputs longer than the bounds only through the structured families"),
  "C17": dict(engine="E+Q+S", cat="model_checking", tech=Q + " + " + S + " + exhaustive geometry enumeration",
-   text="geometry: every block size in [-2, 2*pagesize+1] x buffer sizes x fit flag; disjointness of all block/header ranges for small geometries; BFS over all alloc/free/Block histories on 8-16 blocks to a fixpoint with a copy+reopen+probe after every transition; short sequences over a real MMFile reopened by path; 2-3 threads under the controlled scheduler with a crash point (copy+reopen) after every operation of every schedule",
+   text="geometry: every block size in [-2, 2*pagesize+1] x buffer sizes x fit flag; disjointness of all block/header ranges for small geometries; BFS over all alloc/free/Block histories on 8-16 blocks to a fixpoint with a copy+reopen+probe after every transition; short sequences over a real MMFile reopened by path; 2-3 threads under the controlled scheduler with a crash point (copy+reopen) after every operation of every schedule and linearizability of the call/return history against a sequential allocator (porcupine); every reopen is also drained to exhaustion",
    note="msync/power-loss durability of the mapped file is not modelled (the property speaks of reopening the same bytes); concurrent part bounded by P<=3 (2 threads) / P<=2 (3 threads)"),
  "C18": dict(engine="Q", cat="model_checking", tech=Q,
    text="for every pair of sequences of length <=3(4) over 3 values, 5 selectors and 4 source kinds: all call patterns of HasNext/Next/Reset to a fixpoint of (selector state, look-ahead flags, positions); oracle: two-pointer reference merge",
@@ -50,13 +50,13 @@ checks = {
    text="round trip for subsets of a 10-path universe x 5 filters x recursive flag (thorough: all 1024 subsets); confinement for every archive of <=2(3) entries from 13 adversarial names with a before/after snapshot three directory levels above the destination",
    note="no symlink entries; real file system under a mktemp directory that is removed afterwards"),
  "C02": dict(engine="S", cat="model_checking", tech=S + "; linearizability of every recorded history decided by porcupine",
-   text="every program assignment of 2-3 threads x 1-2 Storage operations (Create/Get/Put/CasByVersion/Delete/PutMany/GetMany) from the empty and a pre-loaded store; in-memory: every schedule within P<=3 with points at the mutex and at every statement executed without the mutex; Redis: every interleaving of the clients' Redis commands against miniredis; oracle: documented outcomes only, write<->version bijection (freshness), per-key linearizability, final read-all",
+   text="every program assignment of 2-3 threads x 1-2 Storage operations (Create/Get/Put/CasByVersion/Delete/PutMany/GetMany) from the empty and a pre-loaded store; in-memory: every schedule within P<=3 with points at the mutex and at every statement executed without the mutex; Redis: every interleaving of the clients' Redis commands against miniredis; plus a family with scheduling points inside the in-memory critical sections and a Create whose context may be cancelled at any moment, and a Redis family where the reply to one write command (SET, SETNX, EXEC) is lost after the server executed it (F<=1); oracle: documented outcomes only, write<->version bijection (freshness), per-key linearizability (a write of unknown outcome is judged both ways), final read-all",
    note="Redis atomicity is explored at command granularity (the granularity at which SETNX/WATCH protect); miniredis is trusted to execute single commands atomically like Redis; go-redis internals run uninstrumented inside one scheduling step; version freshness under true parallelism (id generator) and data races are covered by the supplementary free-running -race audit (inmem, ulid), which is time-boxed, not exhaustive"),
  "C04": dict(engine="S", cat="model_checking", tech=S,
-   text="every schedule within P<=2 (thorough 3) of 2-3 worker programs over Lock/TryLock/LockWithCtx+canceller/cancelled ctx/TryLock with a cancelled ctx/two attempts/hold across a renewal, plus a Shutdown pseudo thread, on the in-memory storage as it is and on a variant that refuses calls whose context has ended; oracles: no deadlock with a blocked worker (lost wake-up), cancelled attempts return ctx.Err(), at the end the lock record is gone, the in-memory waiter table is empty and every Locker can be re-acquired, nothing acquires after Shutdown returned",
+   text="every schedule within P<=2 (thorough 3) of 2-3 worker programs over Lock/TryLock/LockWithCtx+canceller/cancelled ctx/TryLock with a cancelled ctx/two attempts/hold across a renewal, plus a Shutdown pseudo thread, on the in-memory storage as it is and on a variant that refuses calls whose context has ended, with a scheduling point while the reply of Create/Delete is in transit; oracles: no deadlock with a blocked worker (lost wake-up), cancelled attempts return ctx.Err(), at the end the lock record is gone, the in-memory waiter table is empty and every Locker can be re-acquired, nothing acquires after Shutdown returned",
    note="liveness is judged as 'not blocked at quiescence' (no fairness assumption is needed: the SUT has no spin loops on the in-memory storage); weaker reading of 'after Shutdown': attempts invoked after Shutdown() returned"),
  "C05": dict(engine="S", cat="model_checking", tech=S + " with a virtual clock (maximal progress)",
-   text="scenario families on the virtual clock for leases 30ms/10s/100s (in-memory) and 300ms/700ms (kvs/redis over miniredis): handover to a long-waiting contender; the acquisition context ending during the tenure on a context-honouring storage; lease kept over 3.5 leases with a contender and a prober (every renewal call may be lost, request or reply, F<=1); holder death at 6 scripted phases and at any scheduling point, contender must hold the lock within lease + one renewal period; Unlock exactly at the renewal instant followed by a second tenure, at most one stale renewal reaches the storage, none succeeds, timers and timer goroutines wind down",
+   text="scenario families on the virtual clock for leases 30ms/10s/100s (in-memory) and 300ms/700ms (kvs/redis over miniredis): handover to a long-waiting contender; up to 4 spaced lost renewal requests in one tenure of 4.5 leases; the acquisition context ending during the tenure on a context-honouring storage; lease kept over 3.5 leases with a contender and a prober (every renewal call may be lost, request or reply, F<=1); holder death at 6 scripted phases and at any scheduling point, contender must hold the lock within lease + one renewal period; Unlock exactly at the renewal instant followed by a second tenure, at most one stale renewal reaches the storage, none succeeds, timers and timer goroutines wind down",
    note="in-memory storage (after the expiry repairs) and the Redis backend; one known finding: a renewal whose reply is lost ends the renewal chain (needs an owner token; recorded in known_findings.txt); P<=2 on long executions"),
  "C07": dict(engine="S", cat="model_checking", tech=S + "; justification of every return value decided by porcupine (Wait and Cancel as model operations)",
    text="1-3 waiters (current/stale/never-issued version, late waiters that read the version first; keys a, b and the slash-prefixed /s) x per-waiter canceller pseudo threads x every mutator sequence of <=3 operations (incl. writes that store the value already there), every schedule within P<=2 (thorough 3); oracles: return values justified at some instant of the call, no blocked waiter with a reason to return at quiescence, released waiters return the context error, waiter table empty at the end; Redis polling waiter on the virtual clock",
@@ -65,7 +65,7 @@ checks = {
    text="2-3 threads x 1-2 operations over GetOrCreate(a|b)/Remove/Clear, capacities 1..3, create callback with a scheduling point and a free choice succeed/fail, every schedule within the preemption bound with points at the cache mutex, the in-flight wait and inside callbacks; oracles: single-flight counter, linearizability incl. created flag and per-call delete callbacks, create/delete ledger after a final Clear, capacity, in-flight table and list empty at the end",
    note="delete callbacks contain no scheduling point (they run under the cache mutex); data races are outside a cooperative scheduler and are audited by the supplementary free-running -race run (lru)"),
  "C12": dict(engine="S", cat="model_checking", tech=S + " with an adversarial virtual clock (clock deviations bounded by K)",
-   text="scripts of 1-3(4) futures with delays -1ms/0/1ms/5ms (equal deadlines included), the maximal duration (never) and bursts of 4-5 futures due at the same instant, cancel plans none/now/at the fire instant/after firing/twice, 1-2 callers, pool limit 1-10, busy callbacks, short idle timeout; every schedule within P and K with points at the package mutex, wake channel, timers, worker spawn and every statement outside the mutex; oracle on the virtual clock: never early, at most once, no start after an early Cancel, uncancelled futures start exactly once, heap indices consistent",
+   text="scripts of 1-3(4) futures with delays -1ms/0/1ms/5ms (equal deadlines included), the maximal duration (never), bursts of 4-5 futures due at the same instant and 7 queued futures (3 near in every order interleaved in every way with 4 far) with one cancelled and a lateness bound, cancel plans none/now/at the fire instant/after firing/twice, 1-2 callers, pool limit 1-10, busy callbacks, short idle timeout; every schedule within P and K with points at the package mutex, wake channel, timers, worker spawn and every statement outside the mutex; oracle on the virtual clock: never early, at most once, no start after an early Cancel, uncancelled futures start exactly once, heap indices consistent",
    note="time is virtual: 'early' is judged against the virtual clock read before Call; the +1ns-per-read clock is an artefact that keeps strict After() comparisons progressing"),
  "C13": dict(engine="S", cat="model_checking", tech=S + " with a maximal-progress virtual clock",
    text="every arrival pattern of <=3(4) events over far/near/burst/cancel-head/idle gap/arrival exactly at a worker's exit, 1-2 callers, pool limit 1-3, idle timeout 5ms/30s, every schedule within P<=2 incl. statement-level points; oracle: every live future starts exactly once within 1us of its fire time, package winds down to zero workers and goroutines with nothing pending, restarts on the next Call",
